@@ -1,4 +1,500 @@
 package main
 
-func cmdCheck(args []string) int  { return 2 }
-func cmdReplay(args []string) int { return 2 }
+import (
+	"encoding/json"
+	"flag"
+	"fmt"
+	"os"
+	"os/exec"
+	"path/filepath"
+	"runtime"
+	"sort"
+	"strings"
+	"time"
+)
+
+// ---------- check registry ----------
+
+type CheckSpec struct {
+	Quick    []*HarnessCfg `json:"quick"`
+	Thorough []*HarnessCfg `json:"thorough"`
+	Assumptions []string   `json:"assumptions"`
+	Bounds   map[string]string `json:"bounds"`
+}
+
+type KnownFinding struct {
+	Property string `json:"property"`
+	Harness  string `json:"harness"`
+	Kind     string `json:"kind"`
+	Msg      string `json:"msg"`      // exact assertion message
+	Where    string `json:"where"`    // substring of the call-site chain ("" = any)
+	Text     string `json:"text"`
+	Status   string `json:"status"`   // "open" or "fixed: <commit>"
+}
+
+type replayOutcome struct {
+	File      string
+	Ran       bool
+	Violated  bool
+	Line      string
+	Output    string
+}
+
+func loadChecks() (map[string]*CheckSpec, error) {
+	b, err := os.ReadFile(filepath.Join(verifDir(), "checks", "checks.json"))
+	if err != nil {
+		return nil, err
+	}
+	m := map[string]*CheckSpec{}
+	if err := json.Unmarshal(b, &m); err != nil {
+		return nil, err
+	}
+	return m, nil
+}
+
+func loadKnown() []KnownFinding {
+	b, err := os.ReadFile(filepath.Join(verifDir(), "known_findings.json"))
+	if err != nil {
+		return nil
+	}
+	var l struct {
+		Findings []KnownFinding `json:"findings"`
+	}
+	json.Unmarshal(b, &l)
+	return l.Findings
+}
+
+func cmdCheck(args []string) int {
+	if len(args) < 1 {
+		usage()
+	}
+	id := args[0]
+	fs := flag.NewFlagSet("check", flag.ExitOnError)
+	tier := fs.String("tier", "quick", "quick|thorough")
+	workers := fs.Int("workers", runtime.NumCPU(), "workers")
+	only := fs.String("only", "", "run only this harness entry")
+	noReplay := fs.Bool("noreplay", false, "skip native replay")
+	fs.Parse(args[1:])
+	if t := os.Getenv("VERIF_TIER"); t != "" && !flagSet(fs, "tier") {
+		*tier = t
+	}
+	seed := 0
+	fmt.Sscan(os.Getenv("VERIF_SEED"), &seed)
+	start := time.Now()
+
+	checks, err := loadChecks()
+	if err != nil {
+		fmt.Println("INCONCLUSIVE property=" + id + " reason=cannot load checks.json: " + err.Error())
+		return 2
+	}
+	spec := checks[id]
+	if spec == nil {
+		fmt.Println("INCONCLUSIVE property=" + id + " reason=no such check")
+		return 2
+	}
+	hs := spec.Quick
+	if *tier == "thorough" && len(spec.Thorough) > 0 {
+		hs = spec.Thorough
+	}
+	pkgSet := map[string]bool{}
+	for _, h := range hs {
+		pkgSet[h.Pkg] = true
+	}
+	var pkgs []string
+	for p := range pkgSet {
+		pkgs = append(pkgs, p)
+	}
+	sort.Strings(pkgs)
+	P, err := LoadProgram(pkgs)
+	if err != nil {
+		fmt.Printf("INCONCLUSIVE property=%s reason=cannot load/compile /repo with harnesses: %v\n", id, err)
+		writeEvidence(id, *tier, seed, nil, nil, 0, 0, []string{"load failure: " + err.Error()}, spec, time.Since(start))
+		return 2
+	}
+	known := loadKnown()
+	var results []*RunResult
+	var inconclusive []string
+	violations := 0
+	replaysOK := 0
+	exit := 0
+	var crossNotes []string
+	for _, h := range hs {
+		if *only != "" && h.Entry != *only {
+			continue
+		}
+		cfg := *h
+		res := Explore(P, &cfg, *workers, "z3-new", 60000)
+		results = append(results, res)
+		fmt.Printf("[%s] %s.%s paths=%d infeasible=%d obligations=%d/%d queries=%d solver=%.1fs wall=%.1fs\n", id, h.Pkg, h.Entry, res.Paths, res.Infeasible, res.Discharged, res.Obligations, res.Queries, res.SolverTime.Seconds(), res.Wall.Seconds())
+		for _, s := range res.Inconclusive {
+			inconclusive = append(inconclusive, h.Entry+": "+s)
+		}
+		// cross-check with the other solvers (thorough tier)
+		if *tier == "thorough" && os.Getenv("VERIF_NOCROSS") == "" && len(res.Inconclusive) == 0 {
+			for _, sk := range []string{"z3", "cvc5"} {
+				if h.CrossSkip != "" && strings.Contains(h.CrossSkip, sk) {
+					continue
+				}
+				cfg2 := *h
+				r2 := Explore(P, &cfg2, *workers, sk, 120000)
+				note := fmt.Sprintf("%s cross-check %s: paths %d/%d obligations %d/%d violations %d/%d", h.Entry, sk, r2.Paths, res.Paths, r2.Discharged, res.Discharged, len(r2.Violations), len(res.Violations))
+				crossNotes = append(crossNotes, note)
+				fmt.Println("  " + note)
+				if len(r2.Inconclusive) > 0 {
+					crossNotes = append(crossNotes, fmt.Sprintf("%s cross-check %s inconclusive (%s): primary verdict kept", h.Entry, sk, r2.Inconclusive[0]))
+				} else if r2.Paths != res.Paths || r2.Discharged != res.Discharged || len(r2.Violations) != len(res.Violations) {
+					inconclusive = append(inconclusive, "solver disagreement: "+note)
+				}
+			}
+		}
+		// path witnesses: validate the translation natively on sampled paths
+		if !*noReplay && len(res.Witnesses) > 0 {
+			n := replayWitnesses(id, h, res)
+			if n < 0 {
+				inconclusive = append(inconclusive, h.Entry+": translator validation failed: a path witness did not behave natively as predicted")
+			} else {
+				replaysOK += n
+			}
+		}
+		for i, v := range res.Violations {
+			kf := matchKnown(known, id, v)
+			rf := writeReplay(id, h, v, i)
+			if kf != nil {
+				fmt.Printf("KNOWN-FINDING: property=%s %s [%s: %s]\n", id, kf.Text, v.Harness, v.Msg)
+				continue
+			}
+			confirmed := "skipped"
+			if !*noReplay {
+				out := nativeReplay(h, rf, v)
+				switch {
+				case out.Violated:
+					confirmed = "reproduced"
+					replaysOK++
+				case v.Threaded:
+					confirmed = "schedule-dependent (not reproduced natively in this run)"
+				default:
+					confirmed = "NOT reproduced"
+				}
+			}
+			fmt.Printf("  violation [%s] %s\n    at %s\n    native replay: %s\n", v.Kind, v.Msg, v.Where, confirmed)
+			if confirmed == "NOT reproduced" {
+				inconclusive = append(inconclusive, fmt.Sprintf("%s: counterexample for '%s' did not reproduce natively (replay=%s)", h.Entry, v.Msg, rf))
+				continue
+			}
+			violations++
+			fmt.Printf("VIOLATION property=%s replay=%s\n", id, rf)
+			exit = 1
+		}
+	}
+	if exit == 0 && len(inconclusive) > 0 {
+		exit = 2
+	}
+	for _, s := range inconclusive {
+		fmt.Printf("INCONCLUSIVE property=%s reason=%s\n", id, s)
+	}
+	writeEvidence(id, *tier, seed, results, crossNotes, violations, replaysOK, inconclusive, spec, time.Since(start))
+	if exit == 0 {
+		fmt.Printf("OK property=%s tier=%s wall=%.1fs\n", id, *tier, time.Since(start).Seconds())
+	}
+	return exit
+}
+
+func flagSet(fs *flag.FlagSet, name string) bool {
+	found := false
+	fs.Visit(func(f *flag.Flag) {
+		if f.Name == name {
+			found = true
+		}
+	})
+	return found
+}
+
+func matchKnown(known []KnownFinding, id string, v *Violation) *KnownFinding {
+	for i := range known {
+		k := &known[i]
+		if k.Property != id || k.Status != "open" {
+			continue
+		}
+		if k.Harness != "" && k.Harness != v.Harness {
+			continue
+		}
+		if k.Kind != "" && k.Kind != v.Kind {
+			continue
+		}
+		if k.Msg != "" && k.Msg != v.Msg {
+			continue
+		}
+		if k.Where != "" && !strings.Contains(v.Where, k.Where) {
+			continue
+		}
+		return k
+	}
+	return nil
+}
+
+// ---------- replay ----------
+
+func writeReplay(id string, h *HarnessCfg, v *Violation, n int) string {
+	dir := filepath.Join(verifDir(), "replays", id)
+	os.MkdirAll(dir, 0o755)
+	f := filepath.Join(dir, fmt.Sprintf("%s-%d.json", h.Entry, n))
+	doc := map[string]interface{}{
+		"property": id, "pkg": h.Pkg, "harness": h.Entry, "kind": v.Kind, "msg": v.Msg, "where": v.Where,
+		"inputs": v.Inputs, "decisions": v.Decisions, "trace": v.Trace, "threaded": v.Threaded,
+	}
+	b, _ := json.MarshalIndent(doc, "", " ")
+	os.WriteFile(f, b, 0o644)
+	return f
+}
+
+// buildReplayOverlay writes an overlay file for `go test` of package pkg.
+func buildReplayOverlay(tmp, pkg, entry string) (string, error) {
+	ov, _, err := harnessOverlay(true)
+	if err != nil {
+		return "", err
+	}
+	repl := map[string]string{}
+	prefix := filepath.Join(repoDir(), pkg) + string(filepath.Separator)
+	pkgName := ""
+	i := 0
+	for path, src := range ov {
+		if !strings.HasPrefix(path, prefix) || strings.Contains(path[len(prefix):], string(filepath.Separator)) {
+			continue
+		}
+		real := filepath.Join(tmp, fmt.Sprintf("f%d_%s", i, filepath.Base(path)))
+		i++
+		if err := os.WriteFile(real, src, 0o644); err != nil {
+			return "", err
+		}
+		repl[path] = real
+		for _, line := range strings.Split(string(src), "\n") {
+			if strings.HasPrefix(line, "package ") {
+				pkgName = strings.TrimSpace(strings.TrimPrefix(line, "package "))
+				break
+			}
+		}
+	}
+	test := fmt.Sprintf("//go:build verif && verifreplay\n\npackage %s\n\nimport \"testing\"\n\nfunc TestVerifReplay(t *testing.T) { vReplayRun(t, %s) }\n", pkgName, entry)
+	tf := filepath.Join(tmp, "replay_test.go")
+	os.WriteFile(tf, []byte(test), 0o644)
+	repl[filepath.Join(repoDir(), pkg, "zz_verif_replay_test.go")] = tf
+	b, _ := json.Marshal(map[string]interface{}{"Replace": repl})
+	of := filepath.Join(tmp, "overlay.json")
+	return of, os.WriteFile(of, b, 0o644)
+}
+
+func runGoTest(tmp, pkg, entry, replayFiles string, timeout time.Duration) (string, error) {
+	of, err := buildReplayOverlay(tmp, pkg, entry)
+	if err != nil {
+		return "", err
+	}
+	cmd := exec.Command("go", "test", "-mod=mod", "-tags", "verif verifreplay", "-vet=off", "-count=1", "-timeout", "120s",
+		"-overlay", of, "-run", "^TestVerifReplay$", "-v", "./"+pkg)
+	cmd.Dir = repoDir()
+	cmd.Env = append(os.Environ(), "GOFLAGS=-mod=mod", "GOPROXY=off", "GOSUMDB=off", "GOTOOLCHAIN=local", "VERIF_REPLAY_FILE="+replayFiles)
+	done := make(chan struct{})
+	var out []byte
+	go func() {
+		out, err = cmd.CombinedOutput()
+		close(done)
+	}()
+	select {
+	case <-done:
+	case <-time.After(timeout):
+		if cmd.Process != nil {
+			cmd.Process.Kill()
+		}
+		<-done
+		return string(out) + "\nVERIF-HANG: go test killed after timeout", nil
+	}
+	return string(out), nil
+}
+
+func nativeReplay(h *HarnessCfg, file string, v *Violation) replayOutcome {
+	tmp, err := os.MkdirTemp("", "gosmt-replay")
+	if err != nil {
+		return replayOutcome{}
+	}
+	defer os.RemoveAll(tmp)
+	tries := 1
+	if v.Threaded {
+		tries = 3
+	}
+	var out string
+	for t := 0; t < tries; t++ {
+		out, err = runGoTest(tmp, h.Pkg, h.Entry, file, 150*time.Second)
+		if err != nil && out == "" {
+			return replayOutcome{File: file, Output: err.Error()}
+		}
+		if replayShowsViolation(out, v) {
+			return replayOutcome{File: file, Ran: true, Violated: true, Output: out}
+		}
+	}
+	if os.Getenv("GOSMT_DEBUG") != "" {
+		fmt.Println(out)
+	}
+	return replayOutcome{File: file, Ran: true, Output: out}
+}
+
+func replayShowsViolation(out string, v *Violation) bool {
+	switch v.Kind {
+	case "assert":
+		return strings.Contains(out, "VERIF-ASSERT-FAIL: "+v.Msg)
+	case "deadlock":
+		return strings.Contains(out, "VERIF-HANG") || strings.Contains(out, "test timed out") || strings.Contains(out, "all goroutines are asleep")
+	case "race":
+		return false
+	default: // panics of all kinds
+		return strings.Contains(out, "VERIF-PANIC") || strings.Contains(out, "panic:") || strings.Contains(out, "fatal error:")
+	}
+}
+
+// replayWitnesses runs sampled path witnesses natively; returns the number validated, -1 on mismatch.
+func replayWitnesses(id string, h *HarnessCfg, res *RunResult) int {
+	tmp, err := os.MkdirTemp("", "gosmt-wit")
+	if err != nil {
+		return 0
+	}
+	defer os.RemoveAll(tmp)
+	var files []string
+	for i, w := range res.Witnesses {
+		f := filepath.Join(tmp, fmt.Sprintf("w%d.json", i))
+		b, _ := json.Marshal(map[string]interface{}{"harness": h.Entry, "inputs": w})
+		os.WriteFile(f, b, 0o644)
+		files = append(files, f)
+	}
+	out, err := runGoTest(tmp, h.Pkg, h.Entry, strings.Join(files, ":"), 200*time.Second)
+	if err != nil && out == "" {
+		return 0
+	}
+	clean := strings.Count(out, "VERIF-REPLAY: clean")
+	skipped := strings.Count(out, "VERIF-UNREPLAYABLE")
+	if clean+skipped >= len(files) {
+		return clean
+	}
+	fmt.Printf("  witness mismatch for %s: %d of %d path witnesses ran clean natively\n%s\n", h.Entry, clean, len(files), tailLines(out, 40))
+	os.MkdirAll(filepath.Join(verifDir(), "replays", id), 0o755)
+	for i, f := range files {
+		b, _ := os.ReadFile(f)
+		os.WriteFile(filepath.Join(verifDir(), "replays", id, fmt.Sprintf("witness-%s-%d.json", h.Entry, i)), b, 0o644)
+	}
+	return -1
+}
+
+func tailLines(s string, n int) string {
+	l := strings.Split(s, "\n")
+	if len(l) > n {
+		l = l[len(l)-n:]
+	}
+	return strings.Join(l, "\n")
+}
+
+func cmdReplay(args []string) int {
+	if len(args) < 1 {
+		usage()
+	}
+	b, err := os.ReadFile(args[0])
+	if err != nil {
+		fmt.Println(err)
+		return 2
+	}
+	var doc struct {
+		Pkg, Harness, Kind, Msg string
+		Threaded                bool
+	}
+	json.Unmarshal(b, &doc)
+	tmp, _ := os.MkdirTemp("", "gosmt-replay")
+	defer os.RemoveAll(tmp)
+	out, _ := runGoTest(tmp, doc.Pkg, doc.Harness, args[0], 150*time.Second)
+	fmt.Println(out)
+	if replayShowsViolation(out, &Violation{Kind: doc.Kind, Msg: doc.Msg}) {
+		fmt.Println("REPLAY: violation reproduced")
+		return 1
+	}
+	fmt.Println("REPLAY: not reproduced")
+	return 0
+}
+
+// ---------- evidence ----------
+
+func writeEvidence(id, tier string, seed int, results []*RunResult, cross []string, violations, replays int, inconclusive []string, spec *CheckSpec, wall time.Duration) {
+	paths, trans, obl, dis, queries := 0, 0, 0, 0, 0
+	sat, unsat, unk := 0, 0, 0
+	var solverT float64
+	funcs := map[string]int{}
+	var harnesses []map[string]interface{}
+	var samples []interface{}
+	covers := map[string]int{}
+	for _, r := range results {
+		paths += r.Paths
+		trans += r.Decisions + r.Steps
+		obl += r.Obligations
+		dis += r.Discharged
+		queries += r.Queries
+		sat += r.SatN
+		unsat += r.UnsatN
+		unk += r.UnknownN
+		solverT += r.SolverTime.Seconds()
+		for f, n := range r.Funcs {
+			funcs[f] = n
+		}
+		for l, n := range r.Covers {
+			covers[l] += n
+		}
+		harnesses = append(harnesses, map[string]interface{}{
+			"pkg": r.Cfg.Pkg, "entry": r.Cfg.Entry, "paths": r.Paths, "infeasible_prefixes": r.Infeasible,
+			"obligations": r.Obligations, "discharged_unsat": r.Discharged, "violations": len(r.Violations),
+			"queries": r.Queries, "solver_s": r.SolverTime.Seconds(), "wall_s": r.Wall.Seconds(),
+			"bounds": map[string]interface{}{"unwind": r.Cfg.Unwind, "preemption_bound": r.Cfg.Preempt, "max_faults": r.Cfg.MaxFaults, "map_order": r.Cfg.MapOrder, "pool_reuse": r.Cfg.PoolReuse, "lockset": r.Cfg.Lockset, "note": r.Cfg.Note},
+			"max_threads": r.MaxThreads, "inconclusive": r.Inconclusive,
+		})
+		for _, s := range r.SamplePaths {
+			if len(samples) < 12 {
+				samples = append(samples, map[string]interface{}{"harness": r.Cfg.Entry, "path": s})
+			}
+		}
+		for _, v := range r.Violations {
+			if len(samples) < 16 {
+				samples = append(samples, map[string]interface{}{"harness": r.Cfg.Entry, "counterexample": v.Inputs, "assertion": v.Msg})
+			}
+		}
+	}
+	if len(samples) == 0 {
+		samples = append(samples, "no path completed")
+	}
+	var fl []string
+	for f, n := range funcs {
+		if strings.Contains(f, "256dpi") || strings.Contains(f, "tomb") || strings.Contains(f, "mercury") || strings.Contains(f, "bufio") {
+			fl = append(fl, fmt.Sprintf("%s (%d instr)", f, n))
+		}
+	}
+	sort.Strings(fl)
+	if paths == 0 {
+		paths = 1 // schema minimum; the run itself is reported as inconclusive
+	}
+	if trans == 0 {
+		trans = 1
+	}
+	cov := map[string]interface{}{
+		"states": paths, "transitions": trans, "traces_validated_against_impl": replays, "samples": samples,
+		"obligations": obl, "discharged": dis,
+		"explanation": "states = feasible symbolic paths explored to the end (each covers every input satisfying its path condition); transitions = decisions + SSA instructions executed; obligations = explicit and implicit assertions decided by the solver; traces_validated_against_impl = path witnesses / counterexamples re-run natively with matching outcome",
+		"harnesses": harnesses, "functions_encoded": fl, "queries": map[string]int{"total": queries, "sat": sat, "unsat": unsat, "unknown": unk},
+		"solver_time_s": solverT, "solvers": "z3 5.1.0 (z3-new) deciding; thorough tier re-runs every harness on z3 4.8.12 and cvc5 1.0.3",
+		"cross_check": cross, "cover_points": covers, "inconclusive": inconclusive,
+		"exhaustive": len(inconclusive) == 0,
+	}
+	if spec != nil {
+		cov["bounds"] = spec.Bounds
+	}
+	ev := map[string]interface{}{
+		"property_id": id, "tier": tier, "seed": seed, "level": "model_checking",
+		"coverage": cov, "wall_s": wall.Seconds(), "violations": violations,
+	}
+	if spec != nil {
+		ev["assumptions"] = spec.Assumptions
+	}
+	os.MkdirAll(filepath.Join(verifDir(), "evidence"), 0o755)
+	b, _ := json.MarshalIndent(ev, "", " ")
+	os.WriteFile(filepath.Join(verifDir(), "evidence", id+".json"), b, 0o644)
+}
